@@ -150,6 +150,8 @@ class TlSchemas:
                 elif isinstance(value, str):
                     result += bytes.fromhex(value)
             else:
+                if type_ == 'string' and isinstance(value, str):
+                    type_, value = 'bytes', value.encode()  # a string is framed exactly like bytes
                 if type_ == 'bytes':
                     if isinstance(value, dict) and '@type' in value:
                         value = self.serialize(schema=self.get_by_name(value['@type']), data=value, boxed=True)
